@@ -432,6 +432,16 @@ func (e *Enc) execBinOp(in *ssa.BinOp) {
 		}
 		return
 	}
+	if isIntTypeParam(t) {
+		// integer of unknown width: arithmetic is an uninterpreted function shared with specs (pure func tpadd …)
+		name := map[token.Token]string{token.ADD: "tpadd", token.SUB: "tpsub", token.MUL: "tpmul"}[in.Op]
+		if name != "" {
+			fn := smtName("pf$" + name)
+			e.declareFun(fn, []string{"Int", "Int"}, "Int")
+			e.setVal(in, sx(fn, x, y))
+			return
+		}
+	}
 	if !isInteger(t) {
 		e.havocVal(in, "binop")
 		e.unsupported("binop on " + t.String())
